@@ -149,6 +149,14 @@ static RCP<const Basic> build_leaf(const Sexp &e, const LeafTable &t)
     }
     if (k == "NaN")
         return Nan;
+    if (k == "Mul") {
+        // a product of existing factors: Mul::from_dict(coef, {entries}) (the entries are reused as they are)
+        RCP<const Basic> c = build_leaf(e.kids.at(1), t);
+        map_basic_basic d;
+        for (size_t i = 2; i < e.kids.size(); i++)
+            insert(d, build_leaf(e.kids[i].kids.at(0), t), build_leaf(e.kids[i].kids.at(1), t));
+        return Mul::from_dict(rcp_static_cast<const Number>(c), std::move(d));
+    }
     if (k == "Sym")
         return symbol(unhex(e.kids.at(1).atom));
     if (k == "Const") {
